@@ -23,10 +23,12 @@ CHECKS["C15"] = dict(
     text="Bounded-by-nothing-but-width proof obligations over the real limb code of bandersnatch/fr executed from SSA: add/sub/neg/double/"
          "reduce/butterfly/mulByConstant/Cmp/Equal/IsZero/LexicographicallyLargest/Bit/BitLen/SetUint64 and the CIOS Montgomery "
          "multiplication/fromMont for ALL limb values (operands < r), every receiver/operand aliasing pattern; integer encoding with "
-         "abstract 64x64 products and proved dropped-result lemmas for mul, bit-vectors for the linear routines.",
+         "abstract 64x64 products and proved dropped-result lemmas for mul, bit-vectors for the linear routines. The assembly routines of "
+         "element_ops_amd64.s, element_mul_amd64.s and element_mul_adx_amd64.s are interpreted from their source text into the same terms "
+         "and meet the same specifications (ADX path; the non-ADX path calls the portable function with unchanged arguments).",
     design_ref="DESIGN.md section 3.1, 5 / C15",
     note="Trusted: encoder, z3, schoolbook lemma sum P(x_i,y_j)W^(i+j)=x*y (paper), true axioms of the abstract product. Outside: Inverse, "
-         "Sqrt, Exp, Legendre, BatchInvert (algebra level), assembly routines (not yet covered by this check; amd64 dispatch is routed to the portable twins).",
+         "Sqrt, Exp, Legendre, BatchInvert (algebra level, not built); the Go assembler's encoding of the mnemonics and the CPU are trusted.",
     technique="SSA symbolic execution + SMT (z3: QF_BV and LIA with witness terms), per-obligation push/pop")
 CHECKS["C16"] = dict(
     category="proof",
